@@ -87,6 +87,11 @@ def run(res, args):
         i = rng.randint(5, len(f) - 4) if rng.random() < 0.6 else rng.randint(len(f) - 3, len(f) - 1)
         g[i] ^= 1 << rng.randint(0, 7)
         streams.append((f + (gen.rand_junk(rng) if rng.random() < 0.3 else b"") + bytes(g) + f, "damaged-repeat"))
+    # the longest frames (payload 1016..1023 bytes): whole, in a row, between other data
+    for n in (1016, 1017, 1018, 1019, 1020, 1021, 1022, 1023):
+        f = gen.make_frame(gen.payload_with_type(rng, rng.choice([1005, 1077, 1230, gen.rand_type(rng)]), n))
+        streams.append((gen.rand_junk(rng) + f + gen.rand_frame(rng, small=True), "longest-frames"))
+        streams.append((f + f, "longest-frames"))
     cases = ["stream %d debug %s" % (framing.T0, gen.hx(s)) for s, _ in streams]
     impl, model = framing.run_both(res, "stream", cases)
     typed_raws = set()
